@@ -368,3 +368,13 @@ func (cr *CheckRun) CheckResponses(entries []CorpusEntry) {
 	}
 	cr.RunEntries(bin, entries, false, func(name string) bool { return name == "writeJSON" }, func(job *EmittedJob) { cr.CheckWrites(job) })
 }
+
+// CheckClients: C10 over the corpus.
+func (cr *CheckRun) CheckClients(entries []CorpusEntry) {
+	bin, err := BuildGoag(cr.Repo, cr.Scratch)
+	if err != nil {
+		cr.EngineErrors = append(cr.EngineErrors, err.Error())
+		return
+	}
+	cr.RunEntries(bin, entries, false, func(name string) bool { return false }, func(job *EmittedJob) { cr.CheckClient(job) })
+}
